@@ -268,6 +268,15 @@ func CompareFunctions(funcName string, oldResult, newResult diff.FingerprintResu
 		NewFingerprint: newResult.Fingerprint,
 	}
 
+	// Functions beyond the size guard all carry the constant "OVERSIZED" marker instead of a
+	// fingerprint; two markers being equal says nothing about the code, so never report such a
+	// pair as preserved.
+	if oldResult.Fingerprint == "OVERSIZED" || newResult.Fingerprint == "OVERSIZED" {
+		d.Status = models.StatusModified
+		d.FingerprintMatch = false
+		return d
+	}
+
 	if oldResult.Fingerprint == newResult.Fingerprint {
 		d.Status = models.StatusPreserved
 		d.FingerprintMatch = true
